@@ -135,4 +135,4 @@ macro_rules! rv_suite {
 }
 rv_suite!(spsc_rv, fibre::spsc::rendezvous, c05_q_rvspsc_recv_vs_try_send, c05_t_rvspsc_send_vs_try_recv, c01_q_rvspsc_recv_timeout_vs_try_send, c04_t_rvspsc_parked_vs_peer_drop);
 rv_suite!(mpsc_rv, fibre::mpsc::rendezvous, c05_q_rvmpsc_recv_vs_try_send, c05_t_rvmpsc_send_vs_try_recv, c01_q_rvmpsc_recv_timeout_vs_try_send, c04_t_rvmpsc_parked_vs_peer_drop);
-rv_suite!(mpmc_rv, fibre::mpmc::rendezvous, c05_t_rvmpmc_recv_vs_try_send, c05_t_rvmpmc_send_vs_try_recv, c01_t_rvmpmc_recv_timeout_vs_try_send, c04_t_rvmpmc_parked_vs_peer_drop);
+rv_suite!(mpmc_rv, fibre::mpmc::rendezvous, c05_t_rvmpmc_recv_vs_try_send, c05_t_rvmpmc_send_vs_try_recv, c01_x_rvmpmc_recv_timeout_vs_try_send, c04_t_rvmpmc_parked_vs_peer_drop);
